@@ -126,3 +126,9 @@ Example C06_refuted_as_found_2 :
   recv_cycles (run (c6_step true false) c6_init (tr_setup_retry 0)) = [] /\
   c6_env (tr_setup_retry 0) = true.
 Proof. vm_compute. auto. Qed.
+(* over-long data stage: a complete valid setup data packet followed by extra bytes is not a setup request *)
+Example C06_overlong_not_reported :
+  dclass (data_bytes 195 ref_setup 0 ++ [7]) = D0 /\
+  recv_cycles (run (c6_step true true) c6_init (sweep_setup_extra 0 7)) = [] /\
+  ack_cycles (run (c6_step true true) c6_init (sweep_setup_extra 0 (7 + 256 * 3))) = [].
+Proof. vm_compute. auto. Qed.
